@@ -16,12 +16,14 @@ from .consts import (
     RDF_type,
     RDFS_Class,
     RDFS_subClassOf,
+    SH_condition,
     SH_ConstraintComponent,
     SH_node,
     SH_NodeShape,
     SH_path,
     SH_property,
     SH_PropertyShape,
+    SH_rule,
     SH_targetClass,
     SH_targetNode,
     SH_targetObjectsOf,
@@ -427,6 +429,13 @@ class ShapesGraph(object):
                                         _found_child_bnodes.append(item)
                             elif isinstance(p_e, (rdflib.BNode, rdflib.URIRef)):
                                 _found_child_bnodes.append(p_e)
+                # the condition shapes of this shape's rules are needed to run the rules
+                for rule_node in g.objects(s, SH_rule):
+                    for cond in g.objects(rule_node, SH_condition):
+                        cond_items = list(g.items(cond)) if (cond, rdflib.RDF.first, None) in g else [cond]
+                        for item in cond_items:
+                            if isinstance(item, (rdflib.BNode, rdflib.URIRef)):
+                                _found_child_bnodes.append(item)
                 if len(_found_child_bnodes) > 0:
                     _gather_shapes(_found_child_bnodes, recurse_depth=recurse_depth + 1)
 
